@@ -105,7 +105,8 @@ def g_machine(draw):
             "save_as": gen.choice(draw, ["path", "file"]), "read_as": gen.choice(draw, ["path", "file"]),
             "how": gen.choice(draw, ["from_hdf5", "load"]), "C2": gen.integer(draw, 1, 5),
             "relevance": gen.choice(draw, [4.0, 0.5, 20.0, None]), "alpha": gen.choice(draw, [0.5, 0.2, 0.9]),
-            "count_floor": gen.choice(draw, [EPS, 1e-6])}
+            "count_floor": gen.choice(draw, [EPS, 1e-6]),
+            "own_params": gen.choice(draw, [0, 0, gen.integer(draw, 1, 10**6)])}
 
 
 def build(case):
@@ -130,6 +131,14 @@ def build(case):
         g.convergence_threshold = None
         g.fit(case["X"])
         g.max_fitting_steps, g.convergence_threshold = cap, thr
+    if case.get("own_params"):
+        # a reachable state: the machine's own means / variances / weights were assigned through the public setters (or
+        # come from an earlier training with other switches) and differ from its UBM's, whatever its switches say now
+        r = np.random.default_rng(int(case["own_params"]))
+        g.means = np.array(g.means, dtype=float) + np.sqrt(np.array(p["variances"], dtype=float)) * r.normal(0, 0.5, np.shape(g.means))
+        g.variances = np.array(g.variances, dtype=float) * np.exp(r.uniform(0.1, 1.0, np.shape(g.variances)))
+        w = np.array(g.weights, dtype=float) * np.exp(r.uniform(-0.5, 0.5, np.shape(g.weights)))
+        g.weights = w / w.sum()
     return g, prior, positive_floor
 
 
